@@ -16,7 +16,7 @@ def run(ctx, replay=None):
               dict(shape="chain", max_env=1, flags="m,c", faults=True, env="SetProfile,EditProfile"),
               dict(shape="deep", max_env=1, flags="m,c", faults=True, env="Edit,DeleteArt,Truncate,StripKey")]      # four tiers: death between any two of four writes
     else:
-        mc = [dict(shape="chain", max_env=3), dict(shape="star", max_env=3), dict(shape="deep", max_env=2),
+        mc = [dict(shape="chain", max_env=3), dict(shape="star", max_env=3), dict(shape="deep", max_env=2, flagsets="DefaultAndMissing"),
               dict(shape="chain", max_env=0, flagsets="AllFlagSets", env="EverythingEnv", simulate="num=3000,depth=100")]
         ex = [dict(shape="chain", max_env=2, flags="m,c,o", extra="a", faults=True),
               dict(shape="star", max_env=2, flags="m,c,o", faults=True),
